@@ -118,10 +118,26 @@ PROPS = {
         "technique": "Lean 4 round-trip proof (byte-encoding inverse lemma + case analysis) + differential correspondence",
         "explanation": "Field-by-field model of the eth ↔ proto conversion; Go monitors compare hash, recorded hash, recovered sender, canonical binary encoding and the fee figures of the decoded message with the original signed transaction.",
     },
+    "C14": {
+        "id": "C14",
+        "lean_modules": ["HaqqModel.Props.C14"],
+        "level": "proof",
+        "trusted_base": COMMON_TRUST + [
+            "modelled, not verified: SDK bank SendCoinsFromModuleToModule / BurnCoins (all-or-nothing moves, Burner permission panic), the distribution FeePool record, the SDK staking Slash and gov DeleteAndBurnDeposits internals (they are driven for real by the harness; the model only covers what the override does with the coins they burn)",
+        ],
+        "assumptions": [
+            "one denomination at a time (the override is pointwise per coin)",
+            "slashed stake and burned deposits reach the bank only through BurnCoins of the keeper wired into the staking / gov keepers (wiring is a regenerated fact)",
+        ],
+        "level_text": "Machine-checked proofs (Lean 4) that a burn by a redirected module leaves the supply unchanged, adds exactly the amount to the community pool and to the distribution account, preserves distribution's accounting invariant and Σ balances = supply, and that any other module's burn reduces the supply by the amount; the redirected set, the body of the redirected case, the fall-through, the module permissions and the wiring of the overriding keeper into the staking and gov keepers are regenerated from the source and decided by the kernel; real slashes (bonded, unbonding, redelegating stake) and deposit burns run on the application with the three deltas monitored.",
+        "level_note": "Trusted: Lean kernel; go/ast extractor; correspondence harness; SDK staking/gov internals exercised, not modelled.",
+        "technique": "Lean 4 ledger proofs + kernel-decided regenerated facts + differential correspondence and scenario monitors",
+        "explanation": "BurnCoins of the overriding keeper compared with the model for every module account; slash and deposit-burn scenarios on the real keepers with supply / community pool / distribution account monitored.",
+    },
 }
 
 # properties not (yet) claimed, each with a reason; entries disappear as checks are built
 NOT_APPLICABLE = {pid: "check not built yet in this session (planned: see DESIGN.md §5)" for pid in
-                  ["C01", "C02", "C03", "C04", "C05", "C07", "C08", "C10", "C14", "C15", "C16", "C19", "C20"]}
+                  ["C01", "C02", "C03", "C04", "C05", "C07", "C08", "C10", "C15", "C16", "C19", "C20"]}
 
 HOOK_COMMITS = []
